@@ -52,6 +52,8 @@ pub static mut ALLOCS_TOP: i64 = 0;
 pub static mut TOPDROP: bool = false;
 pub static mut DOUBLE_FREE: [u32; 8] = [0; 8];
 pub static mut NDOUBLE: usize = 0;
+/// releases whose layout differs from the layout the block was allocated with
+pub static mut NBADREL: usize = 0;
 pub static mut TBL_LIVE: [i32; MAXID] = [0; MAXID];
 pub static mut OVERFLOW: bool = false;
 
@@ -113,6 +115,7 @@ pub unsafe fn reset() -> (i64, i64) {
     LIVE_BYTES = 0;
     ALLOCS_IN_CALL = 0;
     NDOUBLE = 0;
+    NBADREL = 0;
     ATTR = 0;
     ATTR_ON = false;
     OVERFLOW = false;
@@ -150,6 +153,9 @@ unsafe impl GlobalAlloc for Tracker {
             if let Some(i) = find(ptr as usize) {
                 let s = &mut SLOTS[i];
                 if s.state == 1 {
+                    if layout.size() != s.size || layout.align() != s.align {
+                        NBADREL += 1;
+                    }
                     s.state = 2;
                     s.nfree += 1;
                     LIVE_BLOCKS -= 1;
